@@ -130,8 +130,6 @@ func parseSearchQuery(query string) (ret searchParams) {
 		return
 	}
 
-	query = strings.TrimPrefix(query, "?")
-
 	for _, v := range strings.Split(query, "&") {
 		if v == "" {
 			continue
